@@ -224,6 +224,8 @@ def families(ctx, battery=None):
     fam = [(f'evaluated value round trip: {label}', lambda label=label, build=build, bv=bv: value_round_trip(ctx, label, build, battery, bv)) for label, build, bv in value_nodes()]
     fam += [(f'value round trip: {label}', lambda label=label, build=build: value_round_trip(ctx, label, build, battery)) for label, build in nodes()]
     fam.append(('null is refused', lambda: refused(ctx, 'null', Agg('variant', CVJ, 'Null', []), battery)))
+    from . import c10_schema
+    fam += c10_schema.families(ctx)
     fam.append(('__expr is refused', lambda: refused(ctx, 'the removed __expr escape', Agg('variant', CVJ, 'ExprEscape', [Opaque('smol_str::SmolStr', 'expression text')], ('__expr',)), battery)))
     return fam
 
@@ -286,11 +288,16 @@ def value_battery(ctx, name, role, why):
 def run(ctx):
     ctx.run_families(families(ctx))
     ctx.guarded('native battery', lambda: value_battery(ctx, 'native battery', 'entities/json: to_json / from_json of entities and contexts', 'native entity / context JSON battery'))
-    ctx.bounds += ['both writers (from_expr on the expression, from_valuekind on its evaluated value) x one restricted-expression node of each kind (4 literal kinds with symbolic boolean / i64, extension call with 1 and 2 arguments, set of 0 / 2, record of 0 / 2) with opaque children => values of any depth at the level of the conversion code',
+    ctx.bounds += ['schema-directed parsing (ValueParser::val_into_restricted_expr): expected Set<T> with an array of 2 / a non-array; expected record of 2 attributes (required or not, symbolic; closed or open, symbolic) with every subset of the expected keys present '
+                   'and an unexpected key present or not (8 document shapes) / a non-object; expected entity type; expected Long / String / Bool / no expected type',
+                   'both writers (from_expr on the expression, from_valuekind on its evaluated value) x one restricted-expression node of each kind (4 literal kinds with symbolic boolean / i64, extension call with 1 and 2 arguments, set of 0 / 2, record of 0 / 2) with opaque children => values of any depth at the level of the conversion code',
                    'native battery: a 4-entity store and a context with every attribute type (strings with quotes / backslashes / non-ASCII, i64 extremes, nested records, sets of entities / records / extension values, tags): '
                    'Entities::to_json_value -> from_json_value (with and without the schema), Context likewise, implicit {type, id} / bare-string forms under the schema vs explicit escapes']
     ctx.assumptions += ['children round-trip (induction hypothesis); EntityUID <-> {type, id} and function-name printing / parsing are opaque leaves (names are C05); check_for_reserved_keys answers freely; BTreeMap / Vec / iterator adaptors are the small-container models',
-                        'NOT decided - most of C10: serde (untagged-enum resolution, duplicate keys, number ranges), schema-directed parsing (ValueParser::val_into_restricted_expr), entity / context level JSON (uid, attrs, parents, tags), the TPE / partial formats; '
+                        'schema-directed parsing: serde_json::from_value yields a token or fails (free); nested val_into_restricted_expr calls parse or not (free) and are logged with the expected type they receive; serde_json::Map as a small entry list; '
+                        'the extension-type branch (implicit constructors, argument types of extension functions) is NOT covered',
+                        'NOT decided - most of C10: serde (untagged-enum resolution, duplicate keys, number ranges), entity / context level JSON (uid, attrs, parents, tags), the TPE / partial formats; '
                         'those are only sampled by the native battery']
     return ctx.finish('Solver-decided value level of the entity / context JSON format, conversion code only: for every restricted-expression node kind CedarValueJson::from_expr - and CedarValueJson::from_valuekind on the evaluated value of the node - followed by CedarValueJson::into_expr (all executed from the MIR) gives the node back; '
-                      'records with reserved keys are refused when writing, `null` and `__expr` when reading. A narrow slice of C10.')
+                      'records with reserved keys are refused when writing, `null` and `__expr` when reading; and the dispatch of schema-directed parsing on the expected type: elements of sets and attributes of records are parsed under the types the schema gives them, '
+                      'a record document is accepted exactly when every required attribute is present and no unexpected one (unless the type is open), an expected entity type reads an entity uid. A narrow slice of C10.')
